@@ -171,6 +171,8 @@ def corrupt_dicts(d, r):
         e = copy.deepcopy(d); e['objects'] = [None if i == k else x for i, x in enumerate(e['objects'])]; out.append((e, f'non-string object at {k}'))
     for k in range(len(d['properties'])):
         e = copy.deepcopy(d); e['properties'] = [0 if i == k else x for i, x in enumerate(e['properties'])]; out.append((e, f'non-string property at {k}'))
+    e = copy.deepcopy(d); e['objects'] = [None, 42] + list(e['objects'][2:]); e['context'] = list(e['context']) + [()] * max(0, 2 - len(d['objects'])); out.append((e, 'two non-string objects of unorderable types'))
+    e = copy.deepcopy(d); e['properties'] = [7, None] + list(e['properties'][2:]); out.append((e, 'two non-string properties of unorderable types'))
     e = copy.deepcopy(d); e['objects'] = list(e['objects'])[:-1]; out.append((e, 'drop an object name'))
     e = copy.deepcopy(d); e['objects'] = list(e['objects']) + [e['objects'][0]]; e['context'] = list(e['context']) + [e['context'][0]]; out.append((e, 'duplicate object with its row'))
     e = copy.deepcopy(d); e['properties'] = list(e['properties']) + [e['objects'][0]]; out.append((e, 'object name also a property'))
